@@ -61,7 +61,7 @@ Definition payload_check (s : N) : bool :=
   (N.land (sh18 s) s =? sh18 (N.land s (N.shiftr s 1))).
 
 Lemma payload_check_all : allb 18 0 payload_check = true.
-Proof. vm_compute. reflexivity. Qed.
+Proof. vm_cast_no_check (eq_refl true). Qed.
 
 Lemma payload_facts s : s < 262144 ->
   GL (bit_list s) <= adjp s /\ adjp s <= pairs18 s /\ N.land (sh18 s) s = sh18 (N.land s (N.shiftr s 1)).
